@@ -104,6 +104,20 @@ Definition conf_has (k : str) (conf : list str) : bool := existsb (seq_eqb k) co
 Definition conf_add (k : str) (conf : list str) : list str := if conf_has k conf then conf else conf ++ [k].
 Definition conf_remove (k : str) (conf : list str) : list str := filter (fun x => negb (seq_eqb k x)) conf.
 
+(* DisabledCommands.__init__: the table built from supybot.commands.disabled when the bot starts
+     for name in conf.supybot.commands.disabled():
+         if '.' in name: (plugin, command) = name.split('.', 1); self.add(command, plugin)
+         else: self.add(name)
+   The registry keeps CanonicalString values, so the plugin part arrives canonical ('misc'), whereas isDisabled asks
+   with the class name ('Misc'): the per-command sets must compare canonically (CanonicalNameSet). *)
+Definition dis_of_conf (conf : list str) : dis :=
+  fold_left (fun d name => match split1 [46] name with
+                           | Some (plugin, command) => dis_add d command (Some plugin)
+                           | None => dis_add d name None
+                           end) conf dis_empty.
+(* restart: registry value written and read back (canonical strings), a fresh DisabledCommands *)
+Definition restart (st : ostate) : ostate := OState (dis_of_conf (o_conf st)) (o_conf st).
+
 Section OwnerOps.
 Variable has_cmd : str -> str -> bool.   (* plugin name, command: a canonical command method of that plugin exists *)
 
@@ -643,7 +657,8 @@ Definition gKind (v : value) : kind :=
 (* env: (plugins, disable-ops [(command, () | (plugin))], extra defaults [(command, plugin)], important) *)
 Definition gEnv (v : value) : env :=
   Env (map gPlug (gL (nth_v 0 v)))
-      (fold_left (fun d op => dis_add d (gS (nth_v 0 op)) (gO gS (nth_v 1 op))) (gL (nth_v 1 v)) dis_empty)
+      (* entries of supybot.commands.disabled in the configuration file, read when the bot starts *)
+      (dis_of_conf (fold_left (fun conf op => conf_add (conf_key (gO gS (nth_v 1 op)) (gS (nth_v 0 op))) conf) (gL (nth_v 1 v)) []))
       (fold_left (fun d kv => dict_set (gS (nth_v 0 kv)) (gS (nth_v 1 kv)) d) (gL (nth_v 2 v)) gen.T14.OWNER_DEFAULTS)
       (gLS (nth_v 3 v)).
 Definition gFlags (v : value) : rflags :=
@@ -678,7 +693,7 @@ Definition vStatus (s : status) : value :=
   | Running st => L [vN 1; L (map vCall (m_log st))]            (* fuel exhausted: never for machine *)
   end.
 
-(* history steps: (0 plugin? cmd) disable, (1 plugin? cmd) enable, (2 strs) a flat command line *)
+(* history steps: (0 plugin? cmd) disable, (1 plugin? cmd) enable, (2 strs) a flat command line, (3) restart *)
 Definition has_cmd_of (cbs : list plug) (p c : str) : bool :=
   match find (fun q => seq_eqb (p_name q) p) cbs with
   | Some q => seq_eqb c (canon c) && existsb (seq_eqb c) (p_meths q)
@@ -694,6 +709,9 @@ Fixpoint hist_run (E : env) (B : behs) (K : config) (st : ostate) (steps : list 
       | 2 =>
           let E' := Env (e_cbs E) (o_d st) (e_defaults E) (e_important E) in
           vStatus (machine (final_of E' B) K (map AStr (gLS (nth_v 1 s)))) :: hist_run E B K st steps'
+      | 3 =>
+          let st' := restart st in
+          L [vB true; vDis (o_d st'); vLS (o_conf st')] :: hist_run E B K st' steps'
       | tag =>
           let o := (match tag with 0 => ODisable | _ => OEnable end) (gO gS (nth_v 1 s)) (gS (nth_v 2 s)) in
           let '(st', ok) := owner_step (has_cmd_of (e_cbs E)) st o in
